@@ -107,34 +107,6 @@ def derive_cache_limits(settings):
     settings['CACHE_SIZE_HARD_MAX'] = settings['MAX_CACHE_SIZE']
 
 
-_factors = []
-
-
-def conf_limit_factors():
-  if not _factors:
-    _factors.append(_conf_limit_factors())
-  return _factors[0]
-
-
-def _conf_limit_factors():
-  """Read the factors carbon.conf uses for the derived cache limits from its source text.
-
-  Returns (low_watermark_factor, hard_factor_flow_control, hard_factor_no_flow) so that the oracle
-  uses the property's constants (0.95 / 1.05 / 1.0) while the *implementation* side is configured
-  exactly like the daemon would configure itself.
-  """
-  import re
-  src = open(os.path.join(REPO, 'lib', 'carbon', 'conf.py')).read()
-  low = re.search(r"settings\.CACHE_SIZE_LOW_WATERMARK\s*=\s*settings\.MAX_CACHE_SIZE\s*\*\s*([0-9.]+)", src)
-  hard = re.search(r"if settings\.USE_FLOW_CONTROL:\s*\n\s*settings\.CACHE_SIZE_HARD_MAX\s*=\s*"
-                   r"settings\.MAX_CACHE_SIZE\s*\*\s*([0-9.]+)\s*\n\s*else:\s*\n\s*"
-                   r"settings\.CACHE_SIZE_HARD_MAX\s*=\s*settings\.MAX_CACHE_SIZE\s*(\*\s*[0-9.]+)?", src)
-  if not low or not hard:
-    return None
-  nf = hard.group(2)
-  return (float(low.group(1)), float(hard.group(1)), float(nf.lstrip('* ')) if nf else 1.0)
-
-
 def apply_daemon_cache_limits(settings, variant='base'):
   """Configure MAX_CACHE_SIZE / USE_FLOW_CONTROL (already set to the wanted values) and the limits derived from
   them exactly as the daemon's real start-up (CarbonCacheOptions.postOptions on a generated carbon.conf,
